@@ -39,7 +39,7 @@ Definition mkF (h : bool) (e : option perr) (m : bool) : pflags := {| hc := h; p
 Definition mkR (ma mi : N) (hd host hctl te ka : bool) : reqinfo :=
   {| rver := (ma, mi); is_head := hd; has_host := host; host_ctl := hctl; te_chunked := te; keepalive := ka |}.
 Definition mkA (s : res bool) (x : res pflags) (er : res (version * bool)) (rq : res reqinfo) (cl : res Z)
-               (p : res pathans) (xr : res unit) (ap : res N) : answers :=
+               (p : res pathans) (xr : res unit) (ap : res (N * bool)) : answers :=
   {| a_ssl := s; a_exec := x; a_errreq := er; a_req := rq; a_clen := cl; a_path := p; a_excreq := xr; a_app := ap |}.
 
 (* the parser's decision about the head of a request; [impl] is what the real parser decided, returned
